@@ -134,6 +134,9 @@ pub fn noexec_take() -> Vec<(u64, u64)> {
 pub static RACE_MAP_IN: AtomicI64 = AtomicI64::new(0);
 pub static RACED: Mutex<Vec<u64>> = Mutex::new(Vec::new());
 pub const RACE_MAGIC: u64 = 0x5AFE_C0DE_0BAD_F00D;
+/// n > 0: the n-th mmap the library makes from now on fails with ENOMEM (a process at its mapping
+/// limit), the others are answered as usual
+pub static MMAP_FAIL_IN: AtomicI64 = AtomicI64::new(0);
 /// n > 0: the n-th munmap the library makes from now on fails (EINVAL, nothing is unmapped)
 pub static MUNMAP_FAIL_IN: AtomicI64 = AtomicI64::new(0);
 /// (address, length) of the munmap calls that were made to fail (the harness releases them later)
@@ -159,6 +162,7 @@ pub fn plan_reset() {
     MPROTECT_FAIL_AT.store(0, SeqCst);
     MPROTECT_FAIL_PAGE.store(0, SeqCst);
     MUNMAP_FAIL_IN.store(0, SeqCst);
+    MMAP_FAIL_IN.store(0, SeqCst);
     RACE_MAP_IN.store(0, SeqCst);
     DENY_WX.store(0, SeqCst);
     let _ = noexec_take();
@@ -293,7 +297,15 @@ pub unsafe extern "C" fn mmap(addr: *mut libc::c_void, len: libc::size_t, prot: 
             }
         }
     }
+    let failing = MMAP_FAIL_IN.load(SeqCst);
+    if failing > 0 {
+        MMAP_FAIL_IN.store(failing - 1, SeqCst);
+    }
     let ret = match MODE.load(SeqCst) {
+        MODE_PASS if failing == 1 => {
+            set_errno(libc::ENOMEM);
+            MAP_FAILED
+        }
         MODE_PASS => sys_mmap(hint, len, prot, flags, fd, off),
         MODE_GRANT_ONLY => {
             if hint != 0 && page as u64 == GRANT_PAGE.load(SeqCst) {
